@@ -173,7 +173,7 @@ class Gen:
         dt = D(self.run["dt"])
         start = D(self.run["start"])
         choices = ["lookup", "lookup_named", "delay", "delay_init", "smooth", "trend", "dt", "starttime", "stoptime"]
-        choices += ["step"]
+        choices += ["step", "step_grid"]
         if self.exact:
             choices += ["pulse", "pulse_rep"]
         b = r.choice(choices)
@@ -194,6 +194,9 @@ class Gen:
         if b == "step":
             ts = float(start + dt * r.randint(0, 6) + dt / 2)  # off-grid: no tie at the step time
             return ["step", r.choice([1.0, 2.5, -3.0]), ts]
+        if b == "step_grid":
+            # exactly ON a grid time: there the step has not happened yet (t > ts is false), in a stock equation as much as in a flow
+            return ["step", r.choice([1.0, 2.5, -3.0]), float(start + dt * r.randint(1, 6))]
         if b == "pulse":
             return ["pulse", r.choice([1.0, 4.0]), float(start + dt * r.randint(0, 5)), 0.0]
         if b == "pulse_rep":
